@@ -36,6 +36,9 @@ func coreC10(tier string) []RunSpec {
 		out = append(out, RunSpec{Profile: "core:edge", Params: map[string]int{"edge": 1, "k": k}})
 	}
 	out = append(out, RunSpec{Profile: "core:rotation-dleq", Params: map[string]int{"rotdleq": 1}})
+	for k := 0; k < 3; k++ {
+		out = append(out, RunSpec{Profile: "core:rotation-mixed-token-dleq", Params: map[string]int{"rotdleq": 2, "k": k}})
+	}
 	for k := 0; k < 6; k++ {
 		out = append(out, RunSpec{Profile: "core:tampered-token", Params: map[string]int{"tampered": 1, "k": k}})
 	}
@@ -543,6 +546,7 @@ func runC10(rc *RunCtx) {
 	cv, hasCv := rc.Spec.Params["corrupt"]
 	edge := rc.P("edge", 0) == 1
 	rotdleq := rc.P("rotdleq", 0) == 1
+	rotmixed := rc.P("rotdleq", 0) == 2
 	tokDone := map[*OutToken]bool{}
 	rc.StepLoop(3, 12, func(i int) {
 		ww.step = i
@@ -557,6 +561,22 @@ func runC10(rc *RunCtx) {
 			ww.StepTamperedToken()
 		case edge:
 			ww.StepEdge(m)
+		case rotmixed:
+			// after a rotation the sender holds proofs of the old and the new keyset and sends nearly
+			// everything as one token with DLEQ proofs (old-keyset proofs first): every proof
+			// verifies under its own keyset's key, so the recipient must accept it
+			if i == 0 {
+				ww.forceDLEQ = true
+				ww.StepRotate([]uint64{uint64(fee)})
+				for _, w := range ww.Wallets {
+					_ = w
+					ww.StepMint()
+				}
+				ww.forceSendAll = true
+				ww.StepSend()
+				ww.forceSendAll = false
+			}
+			ww.StepReceive()
 		case rotdleq:
 			// a token with DLEQ from the old keyset must still be receivable after a rotation
 			if i == 0 {
